@@ -6,7 +6,7 @@ Common line syntax (words separated by blanks):
   if <E> | elif <E>           E = prefix expression:  n <nat> <u|s> | i <name> | d <name> | u <op> E | b <op> E E | c E E E
   ifdef <name> <0|1> | ifndef <name> <0|1> | else <0|1> | endif <0|1> | undef <name> <0|1>      (flag = extra tokens on the line)
   define <name> <E> | define <name> -         (`-` = a body that is not an expression)
-  error | other
+  error | other | bad | ifdef-noname          (bad = a directive rejected when reached; ifdef-noname = #ifdef/#ifndef without a name)
   include <q|a> <name> | include_next <name> | once                    (only in `incl`)
 
 `drv_c10 cond`:  lines of one translation unit, then `end`  →  one output line
@@ -86,6 +86,8 @@ def readLine (ws : List String) : Option IL :=
   | ["undef", n, x] => some (.c (.plain (.undef n (flag x))))
   | "define" :: n :: b => (readBody b).map (fun x => .c (.plain (.define n x)))
   | ["error"] => some (.c (.plain .error))
+  | ["bad"] => some (.c (.plain .bad))
+  | ["ifdef-noname"] => some (.c (.opens .noName))
   | ["other"] => some (.c (.plain .other))
   | ["include", "q", n] => some (.incl true n)
   | ["include", "a", n] => some (.incl false n)
